@@ -109,18 +109,18 @@ theorem blockOf_brOK (cx : Cx) (fuel : Nat) (E : Nat) (s0 : St) (env : Src.Env) 
     {bps : List BP} {body : M (List LItem)} (hm : PM cx body (fun k b => Src.trStmts fuel [] env (toSrcStmts bodyS) k b) env)
     {s : St} {blk : Blk} {s' : St} (hb : blockOf bps true true body s = .ok (blk, s')) (hok : HdrsOK hs) (hnm : NamesOf hs bps)
     (hpos : ∀ b ∈ bps, b.positive = !neg) (hstk : SameStk s0 s) :
-    BrOK cx fuel E s0 env ⟨neg, hs, bodyS, blk.hdrs, patchNone E blk.items⟩ ∧ SameStk s s' ∧ NoNone blk.hdrs ∧
+    BrOK cx fuel E s0 env ⟨neg, hs, bodyS, blk.hdrs, patchNone E blk.items, s'⟩ ∧ SameStk s s' ∧ NoNone blk.hdrs ∧
       NoNone (patchNone E blk.items) ∧ patchNone E blk.items ≠ [] := by
   simp only [blockOf, bind_ok] at hb
   obtain ⟨ops, s1, h1, h2⟩ := hb
   have hp := hm _ _ _ h1
   obtain ⟨a, b, c, d, e⟩ := brOK_of_block cx fuel E s0 env neg hs bodyS hp h2 hok hnm hpos hstk
-  exact ⟨a, ⟨b.1.trans hp.loops, b.2.trans hp.cases⟩, c, d, e⟩
+  exact ⟨a, hp.stk.trans b, c, d, e⟩
 
 theorem elsePart_ok (cx : Cx) (fuel : Nat) (E : Nat) (s0 : St) (env : Src.Env) (hasElse : Bool) (elsS : Stmts)
     {els : M (List LItem)} (hm : PM cx els (fun k b => Src.trStmts fuel [] env (toSrcStmts elsS) k b) env)
     {s : St} {ep : List LItem} {s' : St} (h : elsePartOf hasElse els s = .ok (ep, s')) (hstk : SameStk s0 s) :
-    SameStk s s' ∧ ElseOK cx E s0 env (patchNone E ep)
+    SameStk s s' ∧ ElseOK cx E s0 env s' (patchNone E ep)
       (fun k b => if hasElse then Src.trStmts fuel [] env (toSrcStmts elsS) k b else (b, k)) := by
   unfold elsePartOf at h
   cases hasElse with
@@ -132,7 +132,8 @@ theorem elsePart_ok (cx : Cx) (fuel : Nat) (E : Nat) (s0 : St) (env : Src.Env) (
     obtain ⟨br, st, _, nn, _⟩ := blockOf_brOK cx fuel E s0 env true [] elsS hm h1 (fun x hx => by simp at hx) rfl
       (fun b hb => by simp at hb) hstk
     obtain ⟨bps, tgt, eL, PB', _, _, _, _, hsem⟩ := br.negc rfl
-    exact ⟨st, ⟨nn, br.grow, fun r q hp k b hag m j hex hend => hsem r q hp k b hag m j hex hend⟩⟩
+    exact ⟨st, ⟨nn, br.grow, fun r q hp k b hag m j hex hin hend =>
+      ⟨hsem r q hp k b hag m j hex hin hend, br.labs r q hp k b hag m j hex hin hend⟩⟩⟩
   | false =>
     simp only [Bool.false_eq_true, ↓reduceIte, bind_ok, pure_ok] at h
     obtain ⟨jj, s1, h1, h2⟩ := h
@@ -141,7 +142,7 @@ theorem elsePart_ok (cx : Cx) (fuel : Nat) (E : Nat) (s0 : St) (env : Src.Env) (
     obtain ⟨e, rfl⟩ := genJump_stk h1
     have hP : patchNone E [LItem.ljump ⟨s.opc + 1, Gen.op_jump, []⟩ none] = [.ljump ⟨s.opc + 1, Gen.op_jump, []⟩ (some E)] := by
       simp [patchNone, patchItem]
-    refine ⟨e, ⟨?_, fun k b => Grow.refl b, fun r q hp k b _ m j _ hend => ?_⟩⟩
+    refine ⟨e, ⟨?_, fun k b => Grow.refl b, fun r q hp k b _ m j _ _ hend => ⟨?_, LabExport.same (fun _ _ => rfl)⟩⟩⟩
     · rw [hP]; intro x hx root e'; simp at hx; subst hx; cases e'
     · rw [hP] at hp
       have hit : itemAt cx.rs ⟨r, q⟩ = some (.ljump ⟨s.opc + 1, Gen.op_jump, []⟩ (some E)) := by
